@@ -30,6 +30,8 @@ struct ConnectingOutput {
     maybe_oneshot: Option<oneshot::Sender<Result<PeerId>>>,
     target_address: Option<Address>,
     target_peer_id: Option<PeerId>,
+    #[cfg(bmwill_anemo_verif)]
+    verif_task: u64,
 }
 
 /// The active service responsible establishing new inbound and outbound connections.
@@ -358,6 +360,13 @@ impl ConnectionManager {
         active_peers: ActivePeers,
         known_peers: KnownPeers,
     ) -> ConnectingOutput {
+        #[cfg(bmwill_anemo_verif)]
+        let verif_task = crate::verif::next_id();
+        #[cfg(bmwill_anemo_verif)]
+        crate::verif::emit(
+            "in.start",
+            crate::verif::json!({ "ap": active_peers.verif_id(), "task": verif_task }),
+        );
         let fut = async {
             let connection = connecting.await?;
 
@@ -365,6 +374,7 @@ impl ConnectionManager {
             {
                 let fields = crate::verif::json!({
                     "ap": active_peers.verif_id(),
+                    "task": verif_task,
                     "gid": connection.verif_gid(),
                     "sid": connection.stable_id(),
                     "peer": crate::verif::pid(&connection.peer_id()),
@@ -378,6 +388,7 @@ impl ConnectionManager {
                     "in.admission",
                     crate::verif::json!({
                         "ap": active_peers.verif_id(),
+                        "task": verif_task,
                         "gid": connection.verif_gid(),
                         "peer": crate::verif::pid(&connection.peer_id()),
                         "verdict": verdict,
@@ -444,6 +455,7 @@ impl ConnectionManager {
         {
             let fields = crate::verif::json!({
                 "ap": active_peers.verif_id(),
+                "task": verif_task,
                 "ok": connecting_result.is_ok(),
                 "gid": connecting_result.as_ref().ok().map(|c| c.verif_gid()),
                 "peer": connecting_result.as_ref().ok().map(|c| crate::verif::pid(&c.peer_id())),
@@ -458,6 +470,8 @@ impl ConnectionManager {
             maybe_oneshot: None,
             target_address: None,
             target_peer_id: None,
+            #[cfg(bmwill_anemo_verif)]
+            verif_task,
         }
     }
 
@@ -468,6 +482,8 @@ impl ConnectionManager {
             maybe_oneshot,
             target_address,
             target_peer_id,
+            #[cfg(bmwill_anemo_verif)]
+            verif_task,
         }: ConnectingOutput,
     ) {
         match connecting_result {
@@ -477,6 +493,7 @@ impl ConnectionManager {
                 #[cfg(bmwill_anemo_verif)]
                 let verif_fields = crate::verif::json!({
                     "node": crate::verif::pid(&self.endpoint.peer_id()),
+                    "task": verif_task,
                     "ok": true,
                     "gid": new_connection.verif_gid(),
                     "origin": crate::verif::origin(new_connection.origin()),
@@ -501,6 +518,7 @@ impl ConnectionManager {
                     "mgr.result",
                     crate::verif::json!({
                         "node": crate::verif::pid(&self.endpoint.peer_id()),
+                        "task": verif_task,
                         "ok": false,
                         "target": target_peer_id.as_ref().map(crate::verif::pid),
                         "replied": maybe_oneshot.is_some(),
@@ -693,7 +711,7 @@ impl ConnectionManager {
             "dial.start",
             crate::verif::json!({
                 "node": crate::verif::pid(&endpoint.peer_id()),
-                "dial": verif_dial,
+                "task": verif_dial,
                 "addr": format!("{target_address}"),
                 "expected": peer_id.as_ref().map(crate::verif::pid),
             }),
@@ -712,7 +730,7 @@ impl ConnectionManager {
             {
                 let fields = crate::verif::json!({
                     "node": crate::verif::pid(&endpoint.peer_id()),
-                    "dial": verif_dial,
+                    "task": verif_dial,
                     "gid": connection.verif_gid(),
                     "sid": connection.stable_id(),
                     "peer": crate::verif::pid(&connection.peer_id()),
@@ -733,7 +751,7 @@ impl ConnectionManager {
         {
             let fields = crate::verif::json!({
                 "node": crate::verif::pid(&endpoint.peer_id()),
-                "dial": verif_dial,
+                "task": verif_dial,
                 "ok": connecting_result.is_ok(),
                 "gid": connecting_result.as_ref().ok().map(|c| c.verif_gid()),
                 "peer": connecting_result.as_ref().ok().map(|c| crate::verif::pid(&c.peer_id())),
@@ -749,6 +767,8 @@ impl ConnectionManager {
             maybe_oneshot: Some(oneshot),
             target_address: Some(target_address),
             target_peer_id: peer_id,
+            #[cfg(bmwill_anemo_verif)]
+            verif_task: verif_dial,
         }
     }
 }
